@@ -613,6 +613,31 @@ fn main() {
       println!("feelcases cases={} failures={}", cases, nfail);
       for f in failures { println!("FAIL {}", f); }
     }
+    Some("feelseq") => {
+      // feelseq <file> <rounds>: BOUNDED stand-in for the repeatability clause of C13. Every line is an expression; each is parsed and prepared ONCE
+      // (empty scope), then all prepared evaluators are evaluated <rounds> times on ONE thread, forward in even rounds and backward in odd ones;
+      // prints `round<TAB>index<TAB>value` for every evaluation (null messages stripped). The caller compares with values obtained in fresh processes.
+      let text = std::fs::read_to_string(&args[2]).unwrap_or_default();
+      let rounds: usize = args.get(3).and_then(|s| s.parse().ok()).unwrap_or(3);
+      let h = std::thread::Builder::new().stack_size(1024 * 1024 * 1024).spawn(move || {
+        let scope = Scope::default();
+        let mut evs = vec![];
+        for line in text.lines() {
+          let r = std::panic::catch_unwind(std::panic::AssertUnwindSafe(|| dmntk_feel_parser::parse_expression(&scope, line, false).and_then(|n| dmntk_feel_evaluator::prepare(&n))));
+          evs.push(match r { Ok(Ok(ev)) => Some(ev), _ => None });
+        }
+        let mut out = String::new();
+        for r in 0..rounds {
+          let order: Vec<usize> = if r % 2 == 0 { (0..evs.len()).collect() } else { (0..evs.len()).rev().collect() };
+          for i in order {
+            let v = match &evs[i] { Some(ev) => std::panic::catch_unwind(std::panic::AssertUnwindSafe(|| strip_null_messages(&format!("{}", ev(&scope))))).unwrap_or("PANIC".to_string()), None => "NOT-PREPARED".to_string() };
+            out.push_str(&format!("{}\t{}\t{}\n", r, i, v));
+          }
+        }
+        out
+      }).expect("spawn");
+      print!("{}", h.join().unwrap_or("PANIC\n".to_string()));
+    }
     Some("feeltotal") => {
       // feeltotal <file> [secs]: BOUNDED stand-in (not a proof) for C05: every line is an expression; parsing + evaluating it must
       // answer (a value or an error) within <secs> seconds (default 10): no panic, no hang. Stops at the first hang.
@@ -936,6 +961,9 @@ fn main() {
         lists.extend(next.iter().cloned());
         frontier = next;
       }
+      // words that BEGIN with a digit (they can follow a space or an additional symbol, not open a name): `Top 10 customers`, `Q-1`
+      for extra in [vec!["a", "10"], vec!["a", "10", "b"], vec!["a", "-", "1"], vec!["a", ".", "5"], vec!["a", "b", "2"], vec!["a", "+", "10", "b"], vec!["b", "10", "a", "2"], vec!["ż1", "1"],
+                    vec!["a", "/", "2"], vec!["a", "2b", "b"], vec!["b", "'", "9a"], vec!["a", "*", "3", "-", "b"]] { lists.push(extra); }
       let mut cases = 0usize;
       let mut failures: Vec<String> = vec![];
       let mut nfail = 0usize;
